@@ -159,7 +159,7 @@ def cases_for(tier, s):
             if bname in ("stokes", "tensor_space", "vector_elasticity") and cell == "interval":
                 continue
             R.append({"recipe": {"b": bname, "cell": cell, "cdeg": 2 if (cell == "triangle" and i % 2) else 1, "p": p}})
-    for which in range(10):
+    for which in range(11):
         for cell in ("triangle", "tetrahedron") if tier == "quick" else cells[:3] + ["hexahedron"]:
             R.append({"recipe": {"b": "complex_ops", "cell": cell, "p": {"which": which}}, "complex_only": True})
     n = 24 if tier == "quick" else 400
